@@ -82,6 +82,21 @@ class ClassWorld(World):
         k = len(self.log[self.side])
         self.log[self.side].append(ev)
         self.snaps[self.side].append(self.h.snapshot(it, self.side))
+        h = self.h
+        if getattr(h, "reentrant_dispose", False) and not getattr(self, "in_reentrant", False) and ev[0] in ("one", "all") \
+                and any(x[0] in ("on_next", "on_error", "on_completed") for x in ev[2]):
+            # the code that is called out to may call back into the object: an observer may dispose the subject from inside its callback (the
+            # k-th call-out of the real code and the k-th of the spec make the same choice).  What the method does AFTER the call-out - the
+            # rest of the broadcast, its own return - is then compared with the spec as ever: a call made on a live subject returns normally
+            if it.ctx.branch(z3.Bool(f"callout_{k}_disposes_the_object"), f"the observer disposes the object from inside call-out #{k}"):
+                self.in_reentrant = True
+                try:
+                    if self.side == "impl":
+                        it.call(BoundMethod(h.obj, it.class_lookup(h.cls, "dispose")), [], {})
+                    else:
+                        it.call(BoundMethod(h.s, it.class_lookup(h.s.cls, "dispose")), [], {})
+                finally:
+                    self.in_reentrant = False
         b = z3.Bool(f"callout_{k}_raises")
         if it.ctx.branch(b, f"call-out #{k} raises"):
             raise PyExc(SV(z3.Const(f"callout_{k}_exc", smt.Val), "val", tag="exc"))
@@ -336,6 +351,8 @@ class ClassHarness:
         for sf, f in getattr(c, "shared", {}).items():
             s.fields[sf] = o.fields[f]  # collaborators are the same objects on both sides
         uid = f"{c.uid}.{mname}"
+        self.reentrant_dispose = (it.class_lookup(cls, "dispose") is not None and it.class_lookup(speccls, "dispose") is not None
+                                  and mname in ("on_next", "on_error", "on_completed") and getattr(c, "reentrant_dispose", True))
         inv0 = self.inv_term(it, o.fields, s.fields)
         ctx.assume(inv0 if not isinstance(inv0, bool) else z3.BoolVal(inv0))
         if c.requires:
